@@ -24,10 +24,6 @@ func wiringObligations(r *fw.Run, rule, pkg string, exceptions map[string]string
 			r.Pass(rule, key, p.Pos(wi.Pos), what+" (exempt: "+why+")", false)
 			continue
 		}
-		if wi.EmptyBody {
-			r.Pass(rule, key, p.Pos(wi.Pos), what+" (empty body: nothing to run)", false)
-			continue
-		}
 		r.Check(wi.Registered, rule, key, p.Pos(wi.Pos), what,
 			"the visitor implements this astvisitor callback but no Register*Visitor call in the package registers it for that type: the code in it never runs (the walker only calls registered callbacks), while everything type-checks and tests that do not need the callback keep passing")
 	}
